@@ -24,7 +24,7 @@ ASSUMPTIONS = ["time_at is correct (C11)", "times stay below 1e5 s so float reso
 MONITORS = ["roundtrip", "pause_interior", "window", "warp_stretch", "monotone", "independence", "order_independence", "absolute_times", "engine_after_timing_data_edit", "engine_copies"]
 REQUIRED = ["stop_inside_warp", "stop_at_warp_start", "delay_inside_warp", "pause_at_warp_end", "warp_at_beat_0",
             "bpm_change_inside_warp", "nested_warps", "touching_warps", "corpus",
-            "different_kinds_on_adjacent_ticks", "warp_one_tick_after_a_stop", "pause_boundary_at_time_zero"]
+            "different_kinds_on_adjacent_ticks", "warp_one_tick_after_a_stop", "pause_boundary_at_time_zero", "warp_shorter_than_half_a_tick"]
 TICK = Fraction(1, 48)
 
 
